@@ -282,6 +282,12 @@ def run(F, R, tier):
         if not R.anchor("ops impl " + suffix, g):
             return
         m = T.top_match(g)
+        if m is None:
+            # the dispatch lives in a helper the impl hands its operations to as function values: read the impl with the
+            # helper inlined, the named values substituted and the function values applied
+            m = T.top_match(g, body=H.beta(H.unlet(H.inline_helpers(F, H.body_of(g), max_size=600))))
+        if not R.anchor("ops impl %s: a match on the operand pair" % suffix, m):
+            return
         n = 0
         for key, a in T.pair_arms(m):
             if key in ("*", "?"):
